@@ -212,10 +212,27 @@ def law_multi(bag, rng, kind):
             bag.ok(False, "correct-total", label, f"correct({x!r}) raised {e!r}")
 
 
+_OLD_PERMS = []
+
+
 def law_permutation(bag, rng, items, exhaustive=False):
     n = len(items)
     label = "PermutationVariable"
     v = PermutationVariable(name="p", items=items)
+    # variables built earlier must keep decoding with THEIR items after other variables were constructed
+    _OLD_PERMS.append((v, list(items)))
+    if len(_OLD_PERMS) > 3:
+        ov, oitems = _OLD_PERMS[rng.randrange(len(_OLD_PERMS) - 1)]
+        try:
+            p_ = rng.sample(range(len(oitems)), len(oitems))
+            L0 = ov.decode(list(range(len(oitems))))
+            d0 = ov.decode(p_)
+            bag.ok(sorted(map(repr, L0)) == sorted(map(repr, oitems)) and list(d0) == [L0[i] for i in p_], "decode-consistent", label,
+                   f"a variable with items {oitems!r}, after {len(_OLD_PERMS)} other variables were built: decode({p_!r}) = {d0!r}")
+        except Exception as e:
+            bag.ok(False, "decode-consistent", label, f"older variable with items {oitems!r}: decode raised {e!r}")
+        if len(_OLD_PERMS) > 40:
+            del _OLD_PERMS[:20]
     bag.distinct.add((label, repr(items)))
     np.random.seed(rng.randrange(2 ** 32))
     r = v.randomize()
